@@ -756,7 +756,12 @@ def nontrivial_pct(case):
 
 def check(ctx):
     core.check_properties_file(ctx, "Properties/C20.v", THEOREMS, core.AX_NONE)
+    chk_main = ctx.cov.pop("coqchk", None)         # thorough tier: keep both coqchk reports
     core.check_properties_file(ctx, "Properties/C20Base.v", THEOREMS_BASE, core.AX_REALS)
+    if "coqchk" in ctx.cov:
+        ctx.cov["coqchk_base"] = ctx.cov.pop("coqchk")
+    if chk_main is not None:
+        ctx.cov["coqchk"] = chk_main
     np, U, epc = _impl()
     rs = np.random.default_rng(ctx.rng.getrandbits(64))
     rs_base = np.random.default_rng(ctx.rng.getrandbits(64))   # drawn second: the streams below see the same cases as before
